@@ -567,6 +567,11 @@ func (fd *Client) BatchWriteItem(input *dynamodb.BatchWriteItemInput) (*dynamodb
 		return &dynamodb.BatchWriteItemOutput{}, err
 	}
 
+	// a request that cannot be applied fails the whole batch before anything is written
+	if err := fd.validateBatchWriteRequests(input); err != nil {
+		return &dynamodb.BatchWriteItemOutput{}, err
+	}
+
 	unprocessed := map[string][]*dynamodb.WriteRequest{}
 
 	for table, reqs := range input.RequestItems {
@@ -619,6 +624,33 @@ func validateBatchWriteItemInput(input *dynamodb.BatchWriteItemInput) error {
 
 	if count > batchRequestsLimit {
 		return awserr.New("ValidationException", "Too many items requested for the BatchWriteItem call", nil)
+	}
+
+	return nil
+}
+
+func (fd *Client) validateBatchWriteRequests(input *dynamodb.BatchWriteItemInput) error {
+	if fd.forceFailureErr != nil {
+		return nil
+	}
+
+	for tableName, reqs := range input.RequestItems {
+		table, err := fd.getTable(tableName)
+		if err != nil {
+			return err
+		}
+
+		for _, req := range reqs {
+			if req.PutRequest != nil {
+				err = table.ValidatePut(mapAttributeValueToTypes(req.PutRequest.Item))
+			} else {
+				err = table.ValidateKey(mapAttributeValueToTypes(req.DeleteRequest.Key))
+			}
+
+			if err != nil {
+				return err
+			}
+		}
 	}
 
 	return nil
